@@ -382,9 +382,10 @@ def step (m : MState) (e : TEv) : MState :=
         | .ok rev _, .create => w.updInst p.inst fun y => { y with lastAckRev := rev, lastAckAt := e.t }
         | .ok rev _, .update =>
           -- the heartbeat loop gives up on an attempt after its time-out: an answer that arrives later is discarded (HB model),
-          -- so it does not count as the leader's latest acknowledged write
+          -- so it does not count as the leader's latest acknowledged write; neither does the answer to a write of an earlier
+          -- term (a heartbeat still in flight when a stop call gave up waiting, answered after the restart's acquisition)
           let late := match w.inst? p.inst with
-            | some x => x.flag && isRefresh0 x p && decide (p.issued + hbTimeout x.cfg < e.t)
+            | some x => x.flag && (!isRefresh0 x p || decide (p.issued + hbTimeout x.cfg < e.t))
             | none => false
           if late then w else w.updInst p.inst fun y => { y with lastAckRev := rev, lastAckAt := e.t }
         | .err _, .delete => w.updInst p.inst fun y => { y with lastDeleteFailedAt := some e.t }
@@ -447,6 +448,10 @@ def step (m : MState) (e : TEv) : MState :=
         | none => (w0.tombs.lookup x.cfg.key).getD 0
       if rev ≠ 0 ∧ rev < newest then { m with w := w0.setInst { x with lastStaleWev := e.t } } else { m with w := w0 }
   | .wdrop _ _ _ => { m with w := w0 }
+  | .cancelCtx i =>
+    -- the application ends the run by cancelling the context it passed to Start ("the election will stop gracefully"):
+    -- from here on the instance is not expected to lead, compete or refresh; a leader must step down (C03 / C08 clauses apply)
+    { m with w := w0.updInst i fun x => { x with stopCalledSince := some e.t, graceDue := none, verifyOpen := none } }
   | .site op fn =>
     -- C09: background activity ends as soon as operations already in flight return — an operation that a background
     -- goroutine issues after a stop call began is remembered and judged when that call returns successfully
